@@ -1134,7 +1134,10 @@ class _FuncAnalysis:
                 if ok is None:
                     ok = self.regex_digits(c.args[0])
                 return self.site([("ValueError", "int(str) for a non-decimal string or one beyond int()'s 4300-digit limit")], c, ok)
-            return self.site([("ValueError", f"int({at or '?'})")], c, None)
+            if ka and not (ka & {"float", "Any", "object"}) and "str" in ka:
+                return self.site([("ValueError", f"int({at})")], c, None)
+            # unknown / untyped operand (eg. a branch the declared type excludes): whatever __int__ / float conversion raises
+            return self.site([("ValueError", f"int({at or '?'})"), ("OverflowError", f"int({at or '?'}): infinite float"), ("TypeError", f"int({at or '?'}): no integer conversion")], c, None)
         if name == "float":
             at = self.typ(c.args[0]) if c.args else ""
             if kinds(at) and kinds(at) <= {"int", "float", "bool"}:
